@@ -3,9 +3,11 @@
 after bin/seed_confirm.sh confirmed it (demo passes unpatched, fails patched, repository suite still passes)."""
 import json, os, re, shutil, subprocess, sys
 pid, x = sys.argv[1], sys.argv[2]
-src = f"/root/seed/{pid}/{x}"
+ROOT = os.environ.get("SEED_ROOT", "/root/seed")
+src = f"{ROOT}/{pid}/{x}"
 dst = f"/verif/seeded/{pid}-{x}"
-logs = "".join(open(f).read() for f in ("/root/seed/confirm.log", "/root/seed/confirm2.log", "/root/seed/confirm3.log", "/root/seed/confirm4.log", "/root/seed/confirm5a.log", "/root/seed/confirm5b.log", "/root/seed/confirm5c.log", "/root/seed/confirm6a.log", "/root/seed/confirm6b.log", "/root/seed/confirm6c.log", "/root/seed/confirm6d.log", "/root/seed/confirm7a.log", "/root/seed/confirm7b.log", "/root/seed/confirm7c.log", "/root/seed/confirm7d.log", "/root/seed/confirm8a.log", "/root/seed/confirm8b.log", "/root/seed/confirm8c.log", "/root/seed/confirm8d.log", "/root/seed/confirm9a.log", "/root/seed/confirm9b.log", "/root/seed/confirm9c.log", "/root/seed/confirm9d.log") if os.path.exists(f))
+import glob
+logs = "".join(open(f).read() for f in sorted(glob.glob(ROOT + "/confirm*.log")))
 line = [l for l in logs.splitlines() if l.startswith(f"== {pid}/{x} ")]
 if not line or "SEED-CONFIRMED" not in line[-1]:
     print("not confirmed:", pid, x, line[-1][:200] if line else "no log line"); sys.exit(1)
@@ -19,7 +21,7 @@ meta = {
     "summary": m.get("summary"), "needs": m.get("needs"), "files": m.get("files"),
     "origin": "written by an independent sub-agent that saw only the property text and a scratch worktree of /repo (nothing from /verif)",
     "confirmed_by_me": {
-        "cmd": f"bin/seed_confirm.sh /root/seed/{pid}/{x}",
+        "cmd": f"bin/seed_confirm.sh {ROOT}/{pid}/{x}",
         "result": [s for s in line[-1].split("|") if s.strip()][0:4],
         "what": "scratch worktree of /repo HEAD: demo passes unpatched; patch applies, tree builds; demo fails patched; all 454 stable tests of the repository suite still pass with the patch",
     },
